@@ -85,4 +85,31 @@ theorem sendInformational_refused (s : Streams) (id : Nat) (f : List Hpack.Field
   · exact ⟨rfl, _, rfl⟩
   · simp only [h, if_true]; exact ⟨trivial, _, rfl⟩
 
+/-- PUSH_PROMISE on a parent whose send side is closed (END_STREAM sent or queued, reset, failed) is
+    refused: the call fails, nothing is queued -/
+theorem sendPushPromise_send_closed (s : Streams) (p k i : Nat) (f : List Hpack.Field)
+    (h : (s.stream p).state.isSendClosed = true) :
+    (s.sendPushPromise p k i f).1 = s ∧ ∃ e, (s.sendPushPromise p k i f).2 = .error e := by
+  unfold Streams.sendPushPromise
+  split
+  · exact ⟨rfl, _, rfl⟩
+  · simp only [h]; exact ⟨trivial, _, rfl⟩
+
+/-- …so a PUSH_PROMISE is only ever queued on a parent that is not send-closed -/
+theorem sendPushPromise_ok_parent (s : Streams) (p k i : Nat) (f : List Hpack.Field)
+    (h : (s.sendPushPromise p k i f).2 = .ok ()) : (s.stream p).state.isSendClosed = false := by
+  cases hc : (s.stream p).state.isSendClosed with
+  | false => rfl
+  | true =>
+    obtain ⟨_, e, he⟩ := sendPushPromise_send_closed s p k i f hc
+    rw [he] at h; cases h
+
+/-- a stream that has left idle / reserved (local) and is not send-closed is in a phase in which
+    RFC 9113 lets us send (`Spec.Lifecycle.canSend`: open or half-closed (remote)) -/
+theorem canSend_of_not_sendClosed (x : State) (h : x.isSendClosed = false)
+    (hi : H2V.Lemmas.Comp.phase x ≠ .idle) (hr : H2V.Lemmas.Comp.phase x ≠ .reservedLocal) :
+    Spec.Lifecycle.canSend (H2V.Lemmas.Comp.phase x) = true := by
+  rcases x with ⟨_ | _ | _ | ⟨_ | _, _ | _⟩ | ⟨_ | _⟩ | ⟨_ | _⟩ | ⟨_ | _ | _ | _⟩⟩ <;>
+    simp_all [State.isSendClosed, H2V.Lemmas.Comp.phase, Spec.Lifecycle.canSend]
+
 end H2V.Lemmas.ConnResetP
